@@ -5,6 +5,7 @@ import (
 	"fmt"
 	"io"
 	"testing"
+	"time"
 
 	gomavlib "github.com/bluenviron/gomavlib/v3"
 	"github.com/bluenviron/gomavlib/v3/pkg/dialects/ardupilotmega"
@@ -216,6 +217,76 @@ func TestC13SameValueWrittenAgain(t *testing.T) {
 		rec.Case(true, evid.HashS(desc), cls...)
 		if rec.WantSample("same-value") {
 			rec.Sample("same-value", desc)
+		}
+	})
+}
+
+// TestC13RefusedItemsDoNotSilenceALink: an item no link can encode (a raw message whose id the dialect does not
+// contain) is discarded; it is no reason for the link to fall silent. After a run of such items the valid ones written
+// next are on the wire at once - not seconds later, with everything written meanwhile piling up behind a pause.
+func TestC13RefusedItemsDoNotSilenceALink(t *testing.T) {
+	rec := evid.New(t, "C13", "1..2 healthy custom transports; 12..40 raw messages with ids outside the dialect are written (refused at the caller or discarded by the link), then 5 valid messages: all five must be on every wire within 1.5 s (normally microseconds; inconclusive when the process was held up for 300 ms or more), in order, and nothing else; non-trivial = always; distinct by hash of the parameters")
+	rec.Require("valid-items-right-after-a-run-of-12-or-more-refused-ones")
+	evid.Check(t, rec, evid.N(30, 150), func(t *rapid.T) {
+		drawNodeInit(t)
+		nch := rapid.IntRange(1, 2).Draw(t, "links")
+		refused := rapid.IntRange(12, 40).Draw(t, "refused_items")
+		desc := fmt.Sprintf("links=%d refusedItems=%d", nch, refused)
+		err := watchdog(scenarioLimit, func() error {
+			pipes := make([]*sim.Pipe, nch)
+			var endpoints []gomavlib.EndpointConf
+			for i := range pipes {
+				pipes[i] = sim.NewPipe()
+				endpoints = append(endpoints, gomavlib.EndpointCustom{ReadWriteCloser: pipes[i]})
+			}
+			n := &gomavlib.Node{Endpoints: endpoints, Dialect: ardupilotmega.Dialect, OutVersion: gomavlib.V2, OutSystemID: nodeSys, HeartbeatDisable: true}
+			if err := initNode(&n); err != nil {
+				return fmt.Errorf("BROKEN: %v", err)
+			}
+			r := sim.StartRecorder(n, sim.Pacing{Kind: "fast"}, nil)
+			defer func() {
+				closeNode(n, bound) //nolint:errcheck
+				r.WaitClosed(bound)
+			}()
+			if _, ok := openCustom(n, r, pipes); !ok {
+				return fmt.Errorf("BROKEN: channels did not open")
+			}
+			for i := 0; i < refused; i++ {
+				n.WriteMessageAll(&message.MessageRaw{ID: []uint32{999999, 0x0100FE, 0x020083}[i%3], Payload: []byte{byte(i), 3}}) //nolint:errcheck
+				if i%8 == 7 {
+					sleepShort() // the items are discarded one by one, not as a block
+				}
+			}
+			start := time.Now()
+			for i := 0; i < 5; i++ {
+				if err := n.WriteMessageAll(&common.MessageDebug{TimeBootMs: uint32(i), Ind: 4}); err != nil {
+					return fmt.Errorf("valid write refused: %v", err)
+				}
+			}
+			for c, p := range pipes {
+				if !p.WaitWrites(5, 1500*time.Millisecond) {
+					got := p.NumWrites()
+					if stalls.StalledBetweenOver(start, time.Now(), 300*time.Millisecond) {
+						p.WaitWrites(5, bound)
+						return nil // inconclusive: the process was held up
+					}
+					p.WaitWrites(5, bound)
+					return fmt.Errorf("%d items no link can encode were written to healthy links, then 5 valid messages: after 1.5 s link %d carried %d of them (all five %v after they were written) - the link is open, its transport is fine, and it keeps quiet", refused, c, got, time.Since(start).Round(time.Millisecond))
+				}
+				cs, err := counters(p)
+				if err != nil || fmt.Sprint(cs) != "[0 1 2 3 4]" {
+					return fmt.Errorf("link %d carries %v (%v), want the five valid messages 0..4 and nothing else", c, cs, err)
+				}
+			}
+			return nil
+		})
+		if err != nil {
+			evid.ReplayNote("C13", "TestC13RefusedItemsDoNotSilenceALink", desc+"\n"+err.Error())
+			t.Fatalf("%s\n%v", desc, err)
+		}
+		rec.Case(true, evid.HashS(desc), "valid-items-right-after-a-run-of-12-or-more-refused-ones")
+		if rec.WantSample("refused-run") {
+			rec.Sample("refused-run", desc)
 		}
 	})
 }
